@@ -2,6 +2,7 @@ import Hoot.Oracle.BodyW
 import Hoot.Oracle.BodyR
 import Hoot.Oracle.Heads
 import Hoot.Oracle.Expect
+import Hoot.Oracle.ReqHead
 
 /-! Dispatch of the per-property oracles. -/
 
@@ -23,4 +24,7 @@ def oracleFor (pid : String) (c : TCase) : Verdict :=
   | "C06" => (match noPanic c with | .ok => oracleC06 c | v => v)
   | "C11" => oracleC11 c
   | "C20" => oracleC20 c
+  | "C02" => oracleC02 c
+  | "C16" => oracleC16 c
+  | "C17" => oracleC17 c
   | _ => noPanic c
